@@ -57,6 +57,8 @@ type Profile struct {
 	PFine float64
 	// HotP: probability that a promise operation addresses the run's hot id
 	HotP float64
+	// RichTags gives promises and schedules several searchable tags and searches multi-tag filters
+	RichTags bool
 	// NoQuiesce: skip the final convergence phase
 	NoQuiesce bool
 	// Timeouts (relative, ms) to choose from
@@ -80,6 +82,7 @@ type Gen struct {
 	hot     string
 	// per-run scheduling mood: relative eagerness of clients, the clock, workers and deliveries
 	wReq, wTick int
+	nSettle     int
 	wWork, wDel map[string]int
 	queue       []Step
 }
@@ -218,6 +221,18 @@ func (g *Gen) createSpec(kind string) *ReqSpec {
 	if g.R.Intn(3) == 0 {
 		tags["t"] = pick(g.R, []string{"a", "b"})
 	}
+	if g.P.RichTags {
+		// several searchable tags per promise, so that multi-tag filters have partial matches
+		if g.R.Intn(2) == 0 {
+			tags["t"] = pick(g.R, []string{"a", "b"})
+		}
+		if g.R.Intn(2) == 0 {
+			tags["u"] = pick(g.R, []string{"x", "y"})
+		}
+		if g.R.Intn(3) == 0 {
+			tags["v"] = "1"
+		}
+	}
 	if len(tags) > 0 {
 		sp.Tags = tags
 	}
@@ -319,6 +334,14 @@ func (g *Gen) reqSpec() *ReqSpec {
 		if g.R.Intn(3) == 0 {
 			sp.Tags = map[string]string{"t": pick(g.R, []string{"a", "b"})}
 		}
+		if g.P.RichTags && g.R.Intn(2) == 0 {
+			sp.Tags = map[string]string{}
+			for _, kv := range [][2]string{{"t", pick(g.R, []string{"a", "b"})}, {"u", pick(g.R, []string{"x", "y"})}, {"v", "1"}} {
+				if g.R.Intn(2) == 0 {
+					sp.Tags[kv[0]] = kv[1]
+				}
+			}
+		}
 		if g.R.Intn(3) == 0 {
 			sp.Desc = "d" + *g.val()
 		}
@@ -349,6 +372,14 @@ func (g *Gen) reqSpec() *ReqSpec {
 		if g.R.Intn(4) == 0 {
 			sp.Tags = map[string]string{"t": pick(g.R, []string{"a", "b"})}
 		}
+		if g.P.RichTags && g.R.Intn(2) == 0 {
+			sp.Tags = map[string]string{}
+			for _, kv := range [][2]string{{"t", pick(g.R, []string{"a", "b"})}, {"u", pick(g.R, []string{"x", "y"})}, {"v", "1"}, {"resonate:timeout", "true"}} {
+				if g.R.Intn(2) == 0 {
+					sp.Tags[kv[0]] = kv[1]
+				}
+			}
+		}
 		return sp
 	case "SearchSchedules":
 		if g.R.Intn(3) != 0 {
@@ -357,6 +388,14 @@ func (g *Gen) reqSpec() *ReqSpec {
 		sp := &ReqSpec{Kind: kind, Id: pick(g.R, []string{"*", "s*", "*1", "s0"}), Limit: pick(g.R, []int{1, 2, 100, 0})}
 		if g.R.Intn(4) == 0 {
 			sp.Tags = map[string]string{"t": pick(g.R, []string{"a", "b"})}
+		}
+		if g.P.RichTags && g.R.Intn(2) == 0 {
+			sp.Tags = map[string]string{}
+			for _, kv := range [][2]string{{"t", pick(g.R, []string{"a", "b"})}, {"u", pick(g.R, []string{"x", "y"})}, {"v", "1"}} {
+				if g.R.Intn(2) == 0 {
+					sp.Tags[kv[0]] = kv[1]
+				}
+			}
 		}
 		return sp
 	}
@@ -572,6 +611,31 @@ func (g *Gen) Next() Step {
 		}})
 	}
 	cs = append(cs, cand{g.wTick, func() Step { return Step{Op: "tick", Dt: g.dt()} }})
+	// a few background periods in which hand-offs fail: tasks reach the transports mostly through
+	// whole dispatch cycles, which single scheduling steps rarely complete
+	if g.P.PHandoff > 0 && g.nSettle < 3 {
+		waiting := 0
+		for _, t := range s.Last.Tasks {
+			if t.State == 1 || t.State == 2 {
+				waiting++
+			}
+		}
+		if waiting+len(s.Last.Callbacks) > 0 {
+			cs = append(cs, cand{2, func() Step {
+				g.nSettle++
+				st := Step{Op: "settle", Rounds: 1 + r.Intn(3)}
+				for i, n := 0, 1+r.Intn(4); i < n; i++ {
+					o := "ok"
+					if r.Float64() < 0.25+g.P.PHandoff {
+						o = pick(r, []string{"false", "error", "full"})
+					}
+					st.Outcomes = append(st.Outcomes, o)
+				}
+				s.Probes["settle_with_handoff_outcomes"]++
+				return st
+			}})
+		}
+	}
 	for _, sub := range []string{"store", "router", "sender"} {
 		sub := sub
 		sh := s.shellByName(sub)
